@@ -52,7 +52,7 @@ func genC18(free bool) *rapid.Generator[C18Case] {
 			c.Hole = rapid.SampledFrom([]int{0, 0, 1, 50}).Draw(t, "hole") // >0: the range is split in two with a gap of that many rows
 		}
 		w := rapid.Custom(func(t *rapid.T) C18Write {
-			return C18Write{K: rapid.SampledFrom([]string{"set", "set", "del", "rmw", "ins", "multi"}).Draw(t, "k"), Row: rapid.IntRange(0, c.NRows-1).Draw(t, "row")}
+			return C18Write{K: rapid.SampledFrom([]string{"set", "set", "del", "rmw", "ins", "multi", "rmwbad", "setbad"}).Draw(t, "k"), Row: rapid.IntRange(0, c.NRows-1).Draw(t, "row")}
 		})
 		c.Gaps = rapid.SliceOfN(rapid.SliceOfN(w, 0, 6), 1, 7).Draw(t, "gaps")
 		if !c.Wide {
@@ -115,6 +115,25 @@ func (m *c18Model) apply(op *bt.Op) {
 	}
 }
 
+// mustFail: whether the sequential model refuses op in the row's current state.
+func (m *c18Model) mustFail(op *bt.Op) bool {
+	m.mu.Lock()
+	defer m.mu.Unlock()
+	cur := m.cur(string(op.Key))
+	if cur == nil {
+		cur = bt.MRow{}
+	}
+	switch op.K {
+	case "RMW":
+		_, _, v := bt.ApplyRMW(c18Fams, cur, op.Rules, 5000)
+		return v == bt.VErr
+	case "MutateRow":
+		_, v := bt.ApplyMuts(c18Fams, cur, op.Muts, 5000)
+		return v == bt.VErr
+	}
+	return false
+}
+
 func c18Op(w C18Write, gap int) *bt.Op {
 	val := bt.BS(fmt.Sprintf("g%d", gap))
 	switch w.K {
@@ -124,6 +143,10 @@ func c18Op(w C18Write, gap int) *bt.Op {
 		return &bt.Op{K: "MutateRow", Table: tbl, Key: c18Key(w.Row), Muts: []bt.Mut{{K: "delrow"}}}
 	case "rmw":
 		return &bt.Op{K: "RMW", Table: tbl, Key: c18Key(w.Row), Rules: []bt.RMWRule{{Fam: "f", Qual: "log", Append: val}}}
+	case "rmwbad": // must be refused (increment of a value that is not 8 bytes long) and change nothing
+		return &bt.Op{K: "RMW", Table: tbl, Key: c18Key(w.Row), Rules: []bt.RMWRule{{Fam: "f", Qual: "log", Append: val}, {Fam: "f", Qual: "c0", Inc: true, Amount: 1}}}
+	case "setbad": // must be refused (unknown family after a valid mutation) and change nothing
+		return &bt.Op{K: "MutateRow", Table: tbl, Key: c18Key(w.Row), Muts: []bt.Mut{{K: "set", Fam: "f", Qual: "c0", TS: 1000, Val: val}, {K: "set", Fam: "nofam", Qual: "x", TS: 1000, Val: val}}}
 	case "ins":
 		return &bt.Op{K: "MutateRow", Table: tbl, Key: c18InsKey(w.Row, gap), Muts: []bt.Mut{{K: "set", Fam: "f", Qual: "c0", TS: 1000, Val: val}}}
 	default:
@@ -207,11 +230,19 @@ func runC18(c C18Case, ev *vt.Ev) *vt.Failure {
 	var writeErr atomic.Value
 	gapsUsed, acked := 0, 0
 	touchedAhead := false
-	doWrite := func(op *bt.Op) {
+	refused := 0
+	doWrite := func(op *bt.Op, mustFail bool) {
 		done := make(chan *bt.Result, 1)
 		go func() { done <- s.Exec(op) }()
 		select {
 		case r := <-done:
+			if mustFail {
+				if r.Panic != "" || r.Code == 0 {
+					writeErr.Store(fmt.Sprintf("an invalid %s issued during the scan was not refused: code %d %s", op.K, r.Code, r.Panic))
+				}
+				refused++
+				return // refused: the row keeps its versions
+			}
 			if !r.OK() {
 				writeErr.Store(fmt.Sprintf("write %s failed during the scan: code %d %s %s", op.K, r.Code, r.Msg, r.Panic))
 				return
@@ -240,7 +271,7 @@ func runC18(c C18Case, ev *vt.Ev) *vt.Failure {
 				if string(op.Key) > lastSent && inSet(op.Key) {
 					touchedAhead = true
 				}
-				doWrite(op)
+				doWrite(op, m.mustFail(op))
 			}
 		}
 		return nil
@@ -259,11 +290,19 @@ func runC18(c C18Case, ev *vt.Ev) *vt.Failure {
 						}
 						op := c18Op(wr, g*10+w)
 						seq.Lock() // version order == acknowledgement order
+						bad := m.mustFail(op) // under seq: the model is the acknowledged state
 						r := s.Exec(op)
-						if r.OK() {
+						if r.OK() && !bad {
 							m.apply(op)
 						}
 						seq.Unlock()
+						if bad {
+							if r.Panic != "" || r.Code == 0 {
+								writeErr.Store(fmt.Sprintf("an invalid %s was not refused: code %d %s", op.K, r.Code, r.Panic))
+								return
+							}
+							continue
+						}
 						if !r.OK() {
 							writeErr.Store(fmt.Sprintf("write failed: code %d %s %s", r.Code, r.Msg, r.Panic))
 							return
@@ -354,6 +393,9 @@ func runC18(c C18Case, ev *vt.Ev) *vt.Failure {
 	if touchedAhead {
 		labels = append(labels, "write-to-row-not-yet-streamed")
 	}
+	if refused > 0 {
+		labels = append(labels, "refused-write-during-scan")
+	}
 	nontrivial := gapsUsed >= 2 && acked >= 2 && touchedAhead
 	if c.Free {
 		nontrivial = got.Msgs >= 2
@@ -371,7 +413,7 @@ func (s *scanTracker) send(n int) error { return s.onSend(n) }
 
 func TestC18(t *testing.T) {
 	vt.Prop[C18Case]{ID: "C18", Test: "TestC18",
-		Rule: "owned interleaving: a full or ranged scan over 1100-3000 single-cell rows or 250-600 five-cell rows (2-6 response messages; a fifth of the tables with ~4 KB values so that they outgrow the write buffer, a third of the disk tables closed and reopened first: the scan then reads leveldb table files) on the leveldb engines is parked inside every Send (where it has released the table lock) while a drawn batch of writes runs to acknowledgement: multi-cell SetCell, DeleteFromRow, ReadModifyWrite append, new keys, two-row MutateRows on rows before / at / after the scan position; oracle: status OK, strictly ascending keys inside the range, every returned row equals ONE state that row had during the scan (whole row compared), rows present throughout are returned, every write is acknowledged while the scan is parked; non-trivial = >=2 gaps with acknowledged writes touching a row not yet streamed",
+		Rule: "owned interleaving: a full or ranged scan over 1100-3000 single-cell rows or 250-600 five-cell rows (2-6 response messages; a fifth of the tables with ~4 KB values so that they outgrow the write buffer, a third of the disk tables closed and reopened first: the scan then reads leveldb table files) on the leveldb engines is parked inside every Send (where it has released the table lock) while a drawn batch of writes runs to acknowledgement: multi-cell SetCell, DeleteFromRow, ReadModifyWrite append, new keys, two-row MutateRows, and requests that must be refused part-way (increment of a text cell after an append, unknown family after a valid SetCell) on rows before / at / after the scan position; oracle: status OK, strictly ascending keys inside the range, every returned row equals ONE state that row had during the scan (whole row compared), rows present throughout are returned, every write is acknowledged while the scan is parked; non-trivial = >=2 gaps with acknowledged writes touching a row not yet streamed",
 		Gen:  genC18(false), Run: runC18}.Main(t)
 }
 
